@@ -247,7 +247,7 @@ func (e *Engine) mkShape(t types.Type) *Shape {
 		s.eng = e
 		for i := 0; i < u.NumFields(); i++ {
 			f := u.Field(i)
-			if !f.Embedded() && !e.fieldNames[f.Name()] {
+			if !f.Embedded() && !e.fieldNames[f.Name()] && !e.typedFields[typeKey(t)+"."+f.Name()] {
 				continue
 			}
 			fs := e.shapeOf(f.Type())
@@ -309,6 +309,25 @@ func (e *Engine) leafSorts(s *Shape) []string {
 		out = []string{}
 	}
 	s.sorts = out
+	return out
+}
+
+// leafRefs reports, for each leaf of a shape, whether it is a scalar reference
+// (pointer, map, interface payload) whose value denotes an allocated object.
+func (e *Engine) leafRefs(s *Shape) []bool {
+	var out []bool
+	switch s.Kind {
+	case KRef, KMapRef:
+		out = []bool{true}
+	case KIface:
+		out = []bool{false, true}
+	case KStruct:
+		for _, f := range s.Fields {
+			out = append(out, e.leafRefs(f.Sh)...)
+		}
+	default:
+		out = make([]bool, e.nLeaves(s))
+	}
 	return out
 }
 
